@@ -49,6 +49,20 @@ func Main() {
 			c.Args[a[:i]] = a[i+1:]
 		}
 	}
+	if *replay == "" && *budget > 0 && *out != "" {
+		// Last resort against a library call that never returns (seen with changes that break a
+		// termination argument): shortly before the driver would kill this worker — and lose every
+		// violation it has already recorded — the results so far are written out. The stuck
+		// goroutine sits in library code and does not touch the result any more.
+		go func() {
+			time.Sleep(time.Duration((*budget*1.5 + 60) * float64(time.Second)))
+			c.Cap("a case did not return: results up to it written by the worker's watchdog %.0fs after the start", *budget*1.5+60)
+			if err := c.Finish(*out); err != nil {
+				fmt.Fprintln(os.Stderr, err)
+			}
+			os.Exit(0)
+		}()
+	}
 	if *replay != "" {
 		b, err := os.ReadFile(*replay)
 		if err != nil {
